@@ -566,8 +566,12 @@ func c04Instance(cs c04Case, fail func(string, string, ...interface{}) core.Outc
 		}
 	}
 	var out string
-	if p := guard(func() { out, err = printFile(f) }); p != "" {
+	var differs string
+	if p := guard(func() { out, err, differs = printFileBoth(f) }); p != "" {
 		return fail("print-panic:"+tn, "print panicked: %s", p)
+	}
+	if differs != "" {
+		return fail("print-depends-on-fileset-position", "%s", differs)
 	}
 	if err != nil {
 		return fail("print-error:"+tn, "%v", err)
